@@ -92,3 +92,66 @@ Example C08_ex :
   map (fun k => read_blocks (fun x => Some x) rr (fun _ => None) 5 sync 0 (firstn k body)) [0; 1; 3; 4; 19; 20; 21; 22; 23; 38; 39]%nat
   = [(0, FOk); (0, FErr); (0, FErr); (2, FErr); (2, FErr); (2, FOk); (2, FErr); (2, FErr); (3, FErr); (3, FErr); (3, FOk)]%nat.
 Proof. vm_compute. reflexivity. Qed.
+
+(* ---- the property as one statement: a valid file cut at ANY byte position ----
+   [cut_spec sync bl k idx] (Proofs/CutP.v) is the property's wording as a function of the
+   cut position k inside the blocks: at a block boundary, success; inside a block, the
+   records of the blocks before it, plus this block's only when its stored payload is
+   completely present, and an error.  [read_file] is ReadFile as a whole (header, then the
+   block loop under the header's sync marker). *)
+Require Import Avro.Proofs.CutP.
+
+Theorem C08_every_cut_of_the_body : forall decompress read_record cb sync, len sync = 16 ->
+  forall bl idx k fuel,
+  vbs_ok decompress read_record cb idx bl -> (k <= length (concat (map (vb_bytes sync) bl)))%nat -> (length bl < fuel)%nat ->
+  read_blocks decompress read_record cb fuel sync idx (firstn k (concat (map (vb_bytes sync) bl))) = cut_spec sync bl k idx.
+Proof. exact every_cut_body. Qed.
+Print Assumptions C08_every_cut_of_the_body.
+
+(* the whole file, with the header of any conforming writer: every cut inside the header is
+   refused with no record delivered; behind it the blocks decide *)
+Theorem C08_every_cut_of_the_file : forall decompress read_record cb sync, len sync = 16 ->
+  forall mb, Forall block_ok mb ->
+  forall bl k fuel, vbs_ok decompress read_record cb 0 bl ->
+  let file := gen_header mb sync ++ concat (map (vb_bytes sync) bl) in
+  (k <= length file)%nat -> (length bl < fuel)%nat ->
+  read_file decompress read_record cb fuel (firstn k file) =
+    if Nat.ltb k (length (gen_header mb sync)) then (O, FErr)
+    else cut_spec sync bl (k - length (gen_header mb sync)) 0.
+Proof. exact every_cut_file. Qed.
+Print Assumptions C08_every_cut_of_the_file.
+
+(* "reports success only when the prefix ends exactly at the end of the header or of a block" *)
+Theorem C08_success_exactly_at_boundaries : forall sync bl k idx,
+  (k <= length (concat (map (vb_bytes sync) bl)))%nat ->
+  (forall b0, In b0 bl -> (0 < length (vb_bytes sync b0))%nat) ->
+  (snd (cut_spec sync bl k idx) = FOk <->
+   exists j, (j <= length bl)%nat /\ k = length (concat (map (vb_bytes sync) (firstn j bl)))).
+Proof. exact cut_spec_ok_iff. Qed.
+Print Assumptions C08_success_exactly_at_boundaries.
+
+(* "never a partial or invented record": the delivered count is that of the first j blocks *)
+Theorem C08_whole_blocks_only : forall sync bl k idx,
+  exists j, (j <= length bl)%nat /\ fst (cut_spec sync bl k idx) = (idx + total (firstn j bl))%nat.
+Proof. exact cut_spec_whole_blocks. Qed.
+Print Assumptions C08_whole_blocks_only.
+
+(* non-vacuity: a file of two blocks (one byte per record) behind a two-entry header, cut at
+   every position: the model of ReadFile agrees with the specification at each, and the only
+   successes are the three boundaries *)
+Example C08_every_cut_ex :
+  let sync := repeat 7 16 in
+  let rr := fun bs : bytes => match bs with [] => Err | _ :: r => Done tt r end in
+  let mb := [[([97], [1]); ([98], [2; 3])]] in
+  let bl := [{| vb_count := 2; vb_raw := [1; 2]; vb_payload := [1; 2] |};
+             {| vb_count := 1; vb_raw := [3]; vb_payload := [3] |}] in
+  let file := gen_header mb sync ++ concat (map (vb_bytes sync) bl) in
+  let hl := length (gen_header mb sync) in
+  forallb (fun k =>
+    let got := read_file (fun x => Some x) rr (fun _ => None) 5 (firstn k file) in
+    let want := if Nat.ltb k hl then (O, FErr) else cut_spec sync bl (k - hl) 0 in
+    Nat.eqb (fst got) (fst want) &&
+    match snd got, snd want with FOk, FOk | FErr, FErr => true | _, _ => false end) (seq 0 (S (length file))) = true /\
+  filter (fun k => match snd (read_file (fun x => Some x) rr (fun _ => None) 5 (firstn k file)) with FOk => true | _ => false end)
+         (seq 0 (S (length file))) = [hl; (hl + 20)%nat; (hl + 39)%nat].
+Proof. cbv zeta. split; vm_compute; reflexivity. Qed.
